@@ -16,6 +16,7 @@ from common import *
 from common import run as sh
 
 PROPERTIES_FILE = "Properties_C09"
+TRANSLATORS = ["glam.py"]      # the index arithmetic of glam.c that FitModel transcribes must be present in the recognised form
 ASSUMPTIONS = [
     "the linear solve (CHOLMOD analyze/factorize/solve in cholesky_solve) is an oracle: theorems assume `A (solve A r) = r` for symmetric positive definite A; the real solve is only tested (coefficients vs exact minimiser)",
     "CHOLMOD sparse matrices are modelled by the dense matrices they denote (triplet->sparse sums duplicates; ssmult/transpose/add are product/transpose/sum); symmetric-upper storage (stype) is not modelled, its effect is covered by comparing the captured normal matrix with the model",
@@ -1006,7 +1007,8 @@ def run(info, out):
             cases.append(c1); nresc += 1
         suspicious = (not info["proof_ok"])
         results = process(cases, exe_i, exe_m, pool, out)
-        cov["long_axis_cases"] = check_long_axis(Rng(seed).fork("C09-long-axis"), tier, exe_i, pool, out)
+        # a broken obligation (e.g. the glam translator failing closed) turns the sample of axis lengths into the full sweep
+        cov["long_axis_cases"] = check_long_axis(Rng(seed).fork("C09-long-axis"), "thorough" if suspicious else tier, exe_i, pool, out)
         if suspicious or any(r["fails"] for r in results.values()):
             # search harder: 10x volume through the same oracle
             extra = []
